@@ -186,6 +186,22 @@ CHECKS["C19"] = dict(
          "simulator must execute the instruction that was written where pc is set, and -bin -address must place a raw file where it says.",
     note="Interactive 'asm' cannot be scripted (every source line is answered 'Unknown command'); in-process assembly histories are covered by C13.")
 
+CHECKS["C15"] = dict(
+    level="model_checking", design_ref="DESIGN.md 4/C15",
+    technique="exhaustive enumeration of 16-bit opcode cells x operand fills x register presets x program counters through one real step of "
+              "every simulator (library seam), sanitizer recover-mode build as memory oracle, twin execution for determinism, zero- versus "
+              "pattern-initialised builds for dependence on uninitialised memory",
+    text="For each of the 20 cpu_list entries with a simulator (15 simulator classes): all 65 536 values of the leading half-word (and of the "
+         "second half-word for 32-bit instruction sets) x operand fills 00/ff/55aa/7f80 x register presets (reset state, all registers "
+         "0xffffffff, 0x55aa55aa, stack pointer 0/1/0xffff/0xfffe) at pc 0x1000, plus pc 0 (operands pointing at the instruction itself) "
+         "and the top of the 64 KiB space. Every step must return control (no signal, no exit(), no hang), raise no AddressSanitizer/UBSan "
+         "bounds report, give the same dump + memory + return value on a second identically prepared simulator, and the same results in the "
+         "zero- and pattern-initialised builds; for the simulators that size instructions with the disassembler (6502, 65816, 65832) the pc "
+         "advance must use the length of the instruction executed, not of what it left behind.",
+    note="A cell whose steps kill the process is bisected to the opcode; after 48 deaths the cell is reported once as a storm. Sanitizer "
+         "reports are the first trigger per code location per cell (recover mode deduplicates). ebpf and tms9900 are stubs that execute "
+         "nothing; their cells only exercise construction, set_reg and the fetch.")
+
 CHECKS["C18"] = dict(
     level="model_checking", design_ref="DESIGN.md 4/C18",
     technique="exhaustive enumeration of listing programs per CPU (every corpus / decoder-derived instruction in groups of four, plus data-between-code, "
